@@ -3,6 +3,7 @@ package checks
 import (
 	"encoding/json"
 	"fmt"
+	"sort"
 	"strings"
 	"time"
 
@@ -148,6 +149,44 @@ func c18timeValue(e influxql.Expr, z *time.Location) (int64, bool) {
 	return 0, false
 }
 
+// c18predicates lists, sorted, the comparisons of a condition that do not mention time, each as a full dump
+// (so that a lost type suffix or a changed literal shows).
+func c18predicates(e influxql.Expr) []string {
+	var out []string
+	var walk func(e influxql.Expr)
+	walk = func(e influxql.Expr) {
+		switch x := e.(type) {
+		case *influxql.ParenExpr:
+			walk(x.Expr)
+		case *influxql.BinaryExpr:
+			if x.Op == influxql.AND || x.Op == influxql.OR {
+				walk(x.LHS)
+				walk(x.RHS)
+				return
+			}
+			if influxql.HasTimeExpr(x) || c18mentionsTime(x) {
+				return
+			}
+			out = append(out, astx.Dump(astx.Full, x))
+		}
+	}
+	if e != nil {
+		walk(e)
+	}
+	sort.Strings(out)
+	return out
+}
+
+func c18mentionsTime(e influxql.Expr) bool {
+	found := false
+	influxql.WalkFunc(e, func(n influxql.Node) {
+		if v, ok := n.(*influxql.VarRef); ok && strings.EqualFold(v.Val, "time") {
+			found = true
+		}
+	})
+	return found
+}
+
 func countNodes(e influxql.Expr) int {
 	n := 0
 	influxql.WalkFunc(e, func(influxql.Node) { n++ })
@@ -194,6 +233,7 @@ func c18eval(c c18Case) (out []ev.Finding, hashes []uint64) {
 		}
 	}
 	rank := len(text) + 100*len(c.Windows)
+	preds0 := c18predicates(stmt.Condition)
 	prevNodes := -1
 	valuer := &influxql.NowValuer{Now: cmNow, Location: z}
 	for step, wi := range c.Windows {
@@ -243,6 +283,12 @@ func c18eval(c c18Case) (out []ev.Finding, hashes []uint64) {
 					Detail: fmt.Sprintf("after call %d the condition %s is %v at t=%d host=%s region=%s value=%d, expected %v", step+1, cond, got, p.t, p.host, p.region, p.value, want), Case: c, Rank: rank})
 				return out, hashes
 			}
+		}
+		// I4: every predicate that is not a time bound is kept as it was written (name, type suffix, operator, value)
+		if now := c18predicates(cond); strings.Join(now, "\n") != strings.Join(preds0, "\n") {
+			out = append(out, ev.Finding{Sig: "predicate-not-kept:" + ev.SigSafe(timeForm), Witness: wit,
+				Detail: fmt.Sprintf("after call %d the non-time predicates are %q, the statement was written with %q", step+1, now, preds0), Case: c, Rank: rank})
+			return out, hashes
 		}
 		// I3: the condition does not grow from call to call
 		n := countNodes(cond)
